@@ -285,6 +285,101 @@ pub fn log_case(c: &LogCase, shm: &Shm) {
     }
 }
 
+/// Log writer under a failing filesystem: for every index of a write / flush call made while the
+/// records are appended (once and sticky), the records whose `append` returned Ok before the
+/// first failing `append` must all be read back, in order, and nothing that was not appended may
+/// be returned. In particular, if no `append` reports the injected failure, every record must be
+/// there (a swallowed failure of the block-trailer padding write loses the framing of everything
+/// behind it).
+pub fn log_fault_case(lens: &[usize], shm: &Shm, clause: &str) {
+    use crate::vfs::{class, Fault};
+    let n = lens.len();
+    let want: Vec<Vec<u8>> = (0..n).map(|i| payload(i, lens[i])).collect();
+    for sticky in [false, true] {
+        let mut at = 0u64;
+        loop {
+            let fs = new_fs();
+            {
+                let mut st = fs.state();
+                st.fault = Some(Fault {
+                    at_call: at,
+                    sticky,
+                    classes: class::WRITE | class::FLUSH,
+                    fired: false,
+                });
+                st.calls = 0;
+            }
+            let mut results: Vec<bool> = vec![];
+            match VerifLogWriter::new(arc_fs(&fs), &log_path(), false) {
+                Ok(mut w) => {
+                    for (i, &l) in lens.iter().enumerate() {
+                        results.push(w.append(&payload(i, l)).is_ok());
+                    }
+                }
+                Err(_) => {}
+            }
+            let fired = fs.state().faults_fired > 0;
+            if !fired {
+                break;
+            }
+            fs.state().fault = None;
+            shm.add(C_CASES, 1);
+            shm.add(C_NONTRIVIAL, 1);
+            shm.add(C_USER + 5, 1);
+            let d = || json!({"kind": "append_under_fault", "record_lengths": lens, "failing_call_index": at, "sticky": sticky, "append_results_ok": results});
+            let acked = results.iter().take_while(|ok| **ok).count();
+            match read_all(&fs, n + 2) {
+                Ok(got) => {
+                    let prefix_ok = got.len() >= acked && got[..acked] == want[..acked];
+                    // what follows the acknowledged prefix: appended records only, in order
+                    let mut j = acked;
+                    let mut rest_ok = true;
+                    for g in got.iter().skip(acked) {
+                        match (j..n).find(|k| want[*k] == *g) {
+                            Some(k) => j = k + 1,
+                            None => rest_ok = false,
+                        }
+                    }
+                    if !prefix_ok || !rest_ok {
+                        found(
+                            shm,
+                            clause,
+                            &format!(
+                                "call {} of the appends fails ({}): append results {:?}, the {} records acknowledged before the first failure must be read back but the reader returns {}",
+                                at,
+                                if sticky { "sticky" } else { "once" },
+                                results,
+                                acked,
+                                short(&got)
+                            ),
+                            d(),
+                        );
+                        return;
+                    }
+                }
+                Err(e) => {
+                    found(shm, clause, &format!("call {} fails: reading the log back fails: {}", at, e), d());
+                    return;
+                }
+            }
+            at += 1;
+            if at > 10_000 {
+                break;
+            }
+        }
+    }
+}
+
+pub fn log_fault_cases() -> Vec<Vec<usize>> {
+    let mut v = vec![];
+    for r in 0..=8usize {
+        v.push(vec![B - H - r, 5, 5, 40_000, 3]);
+    }
+    v.push(vec![5, 5, 5]);
+    v.push(vec![70_000, 5]);
+    v
+}
+
 /// Damage one payload byte of every fragment of every multi-fragment record (one at a time):
 /// whatever the reader returns must be a subsequence of the appended records, in order, and must
 /// not contain the damaged record — never a record that was not appended.
